@@ -19,8 +19,8 @@ if [ -f $src/patch.diff.rebased ]; then cp $src/patch.diff $d/patch.orig.diff; m
 python3 - "$id" "$place" "$*" <<'P'
 import json,sys
 id,place,args=sys.argv[1:4]
-m={"id":id,"property":id[:3],"round":8,
- "origin":"independent sub-agent (eighth batch: given only the property text and a scratch worktree; asked for two changes with different mechanisms)",
+m={"id":id,"property":id[:3],"round":int(__import__("os").environ.get("SEEDROUND","9")),
+ "origin":"independent sub-agent (batch "+__import__("os").environ.get("SEEDROUND","9")+": given only the property text and a scratch worktree; asked for two changes with different mechanisms)",
  "summary":"","needs_to_manifest":"",
  "confirmed":{"how":"tools/seedverify.sh seeded/%s/patch.diff seeded/%s/demo_test.go %s %s"%(id,id,place,args),
   "builds":True,"baseline_64_pass_with_change":True,"demo_fails_with_change":True,"demo_passes_without_change":True},
